@@ -759,6 +759,27 @@ class History:
                             self.ask_default(V)
                 finally:
                     Settings.set_atol(self.default_atol)
+            # an object BUILT with physicality required inside a loose window of the global tolerance (violation below
+            # loose/10, so the constructor has to accept it and the default verdict is true), then the global tolerance
+            # is tightened far below the violation: the default-argument verdicts read the tolerance at call time
+            with self.step("ctor-required-then-setting-tightened"):
+                loose = float(rng.choice([1e-3, 1e-5, 1e-7]))
+                tight = loose * 1e-4
+                try:
+                    Settings.set_atol(loose)
+                    ops2 = build_ops(t, self.d, m_obj or 3, rng, str(rng.choice(BKINDS[t])), str(rng.choice(["eq", "ineq", "both"])), loose / 30)
+                    ok, o2 = ctx.attempt(self.cls, self.c_sys, self.raw_of(self.c_sys, ops2), is_physicality_required=True)
+                    if ok:
+                        self.ask_default(o2, ("phys",))
+                        Settings.set_atol(tight)
+                        self.ask_default(o2, ("phys",) if lean else ("phys", "ineq", "eq"))
+                        Settings.set_atol(loose)
+                        self.ask_default(o2, ("phys",))
+                        ctx.count("history:ctor-required-then-setting-tightened")
+                    else:
+                        ctx.count(f"history:step-unavailable:ctor-required-in-loose-window:{type(o2).__name__}")
+                finally:
+                    Settings.set_atol(self.default_atol)
             # setters that have nothing to do with physicality, between two queries of the same object
             with self.step("after-setter"):
                 mpo, eti = obj.mode_proj_order, obj.eps_truncate_imaginary_part
